@@ -4,6 +4,7 @@ import ast
 from ..loader import walk_no_nested, norm
 from ..effects import root, is_fresh, show, path_fields
 from .. import q
+from ..cfg import guarded_by
 
 
 def run(ctx):
@@ -91,4 +92,62 @@ def run(ctx):
             else:
                 r.fail(draw_row, c, norm(c), "the pad width of a cell is measured on %s: style tags / escape codes count as visible characters and rows come out ragged" %
                        ("the formatted text" if formatted_first else "the raw text without a formatter"))
+
+    # ---------------------------------------------------------------- R4
+    r = ctx.rule("C14-R4", "RANGE", "a column is as wide as its widest cell in EVERY row: each running maximum kept inside a loop over the rows / cells "
+                 "of the wrapper is updated on every path of its iteration (not only for the cells that were re-wrapped)", reference=2)
+    cw = ctx.cls("clikit.ui.components.cell_wrapper.CellWrapper")
+    for name, m in sorted(cw.methods.items()):
+        cfg = ctx.cfg(m)
+        for loop in [n for n in walk_no_nested(m.node) if isinstance(n, ast.For)]:
+            over_rows = any(isinstance(x, ast.Attribute) and isinstance(x.value, ast.Name) and x.value.id == "self" and x.attr in ("_wrapped_rows", "_cells", "_cell_lengths") for x in walk_no_nested(loop.iter))
+            if not over_rows:
+                continue
+            head = cfg.node_of(loop)
+            for n in walk_no_nested(loop):
+                if not (isinstance(n, ast.Assign) and len(n.targets) == 1 and isinstance(n.value, ast.Call) and isinstance(n.value.func, ast.Name) and n.value.func.id == "max"):
+                    continue
+                tgt = norm(n.targets[0])
+                if not any(norm(a) == tgt for a in n.value.args):
+                    continue
+                inner = next((a for a in _anc(n) if isinstance(a, (ast.For, ast.While))), None)
+                if inner is not loop:
+                    continue
+                body_start = [x for x in cfg.succs(head.id) if cfg.nodes[x].kind == "loop_body"]
+                ids = {x.id for x in cfg.nodes_of(n)}
+                if body_start and all(cfg.all_paths_hit(b, ids, [head.id]) for b in body_start):
+                    r.ok("%s: %s = max(...) over every row" % (m.short, tgt))
+                else:
+                    r.fail(m, n, "%s = max(...) conditional" % tgt, "%s keeps the running maximum `%s` only for some rows of the column (the update is under a condition): a cell that was not "
+                           "re-wrapped but is longer than every wrapped line is wider than its column - the drawer drops it together with its border" % (m.short, tgt))
+
+    # ---------------------------------------------------------------- R5
+    r = ctx.rule("C14-R5", "ORDER", "whether a border line is drawn is decided on the text that would be written: a truthiness test that guards a write sees the "
+                 "value after trailing blanks were stripped, not before (an undrawn border is no line at all, not a blank line)", reference=1)
+    bu = ctx.cls("clikit.ui.components.border_util.BorderUtil")
+    for name, m in sorted(bu.methods.items()):
+        cfg = ctx.cfg(m)
+        for c in q.calls(m):
+            if not (isinstance(c.func, ast.Attribute) and c.func.attr in ("write", "write_line")):
+                continue
+            for cn in cfg.nodes_of(c):
+                g = guarded_by(cfg, cn, lambda e: isinstance(e, ast.Name), polarity=True)
+                if g is None:
+                    continue
+                x = g.ast.id
+                late = [k for k in ast.walk(c) if isinstance(k, ast.Call) and isinstance(k.func, ast.Attribute) and k.func.attr in ("rstrip", "strip") and isinstance(k.func.value, ast.Name) and k.func.value.id == x]
+                if late:
+                    r.fail(m, c, "%s tested before %s" % (x, norm(late[0])), "%s tests `%s` for emptiness and then writes `%s`: a line of blanks only (an undrawn border under indentation) "
+                           "passes the test and comes out as an empty line of width 0 between the rows" % (m.short, x, norm(late[0])))
+                else:
+                    r.ok("%s: write guarded by the value it writes (%s)" % (m.short, x))
+    if r.n == 0:
+        r.vacuous_ok = True
     return ctx.results
+
+
+def _anc(n):
+    p = getattr(n, "_parent", None)
+    while p is not None:
+        yield p
+        p = getattr(p, "_parent", None)
